@@ -21,7 +21,7 @@ var effectFreeFuncs = map[string]bool{
 	"(*sync.RWMutex).Lock": true, "(*sync.RWMutex).Unlock": true, "(*sync.RWMutex).RLock": true, "(*sync.RWMutex).RUnlock": true,
 	"(*sync.WaitGroup).Add": true, "(*sync.WaitGroup).Done": true, "(*sync.WaitGroup).Wait": true,
 	"(*sync.Once).Do": false,
-	"(*sync.Pool).Put": true, "(*sync.Cond).Broadcast": true, "(*sync.Cond).Signal": true,
+	"(*sync.Pool).Put": true, "(*sync.Pool).Get": true, "(*sync.Cond).Broadcast": true, "(*sync.Cond).Signal": true,
 	"errors.New": true, "fmt.Errorf": true,
 }
 
